@@ -90,6 +90,19 @@ func c13Pool(kind string, variant string) []ap.Item {
 		}
 		return []ap.Item{ap.IRI(ids[0]), ap.IRI(ids[1]), &ap.Object{ID: ap.IRI(ids[2]), Type: ap.NoteType}, &ap.Actor{ID: ap.IRI(ids[3]), Type: ap.PersonType}, ap.IRI(ids[4]), ap.IRI(ids[5])}
 	}
+	if variant == "querymulti" {
+		// ids that repeat a query key the same number of times, agree on its first value and differ in a later one
+		b := "https://example.com/notes"
+		ids := []string{b + "?tag=go&tag=activitypub", b + "?tag=go&tag=json", b + "?tag=go&tag=xml", b + "?tag=go", b + "?tag=json&tag=xml", b + "?tag=go&tag=json&tag=json"}
+		if kind == "IRIs" {
+			var out []ap.Item
+			for _, id := range ids {
+				out = append(out, ap.IRI(id))
+			}
+			return out
+		}
+		return []ap.Item{ap.IRI(ids[0]), ap.IRI(ids[1]), &ap.Object{ID: ap.IRI(ids[2]), Type: ap.NoteType}, &ap.Actor{ID: ap.IRI(ids[3]), Type: ap.PersonType}, ap.IRI(ids[4]), ap.IRI(ids[5])}
+	}
 	if variant == "opaque" {
 		// identities that are URIs without an authority (urn:, acct:, did:, mailto:, tag:): distinct strings, distinct members
 		ids := []string{"urn:uuid:6e8bc430-9c3a-11d9-9669-0800200c9a66", "urn:uuid:6e8bc430-9c3a-11d9-9669-0800200c9a67", "acct:alice@example.com", "did:example:123456789abcdefghi",
@@ -199,7 +212,7 @@ func c13KindVariants() [][2]string {
 		}
 	}
 	for _, k := range c13Containers {
-		out = append(out, [2]string{k, "near"}, [2]string{k, "opaque"}, [2]string{k, "wrapped"}, [2]string{k, "ipv6"}, [2]string{k, "relative"})
+		out = append(out, [2]string{k, "near"}, [2]string{k, "opaque"}, [2]string{k, "wrapped"}, [2]string{k, "ipv6"}, [2]string{k, "relative"}, [2]string{k, "querymulti"})
 	}
 	for _, k := range c13Containers {
 		if k != "IRIs" {
